@@ -46,7 +46,24 @@ struct Case {
     static_error: bool,
     /// the reference ran out of budget (huge repetition / allocation): not run
     skip: bool,
+    /// an option in front of the script path / -c: 0 none, 1 `-s`, 2 `--skip-pcap` (no effect on a program without filters)
+    lead: u8,
+    /// the text of the shebang line: 0 = the real interpreter path (also executed directly), others see SHEBANGS
+    sb_line: u8,
 }
+
+/// first lines that start with `#!`: the line is a comment to p2sh whatever it holds
+const SHEBANGS: &[&str] = &[
+    "", // the real path
+    "/home/zoë/bin/p2sh",
+    "/usr/bin/env -S p2sh # größere Pakete → ok",
+    "/home/ренат/.cargo/bin/p2sh -s",
+    "",
+    " /usr/bin/p2sh",
+    "日本語日本語日本語日本語日本語日本語",
+    "/usr/bin/env p2sh\r",
+    "x\ty \"quoted\" 'single' {brace} ; let z = 1;",
+];
 
 fn gen_case(bytes: &[u8]) -> Case {
     let mut c = Choices::new(bytes);
@@ -56,6 +73,8 @@ fn gen_case(bytes: &[u8]) -> Case {
         args.push(POOL[c.below(POOL.len())].to_string());
     }
     let dashdash_first = c.bool();
+    let lead = [0u8, 0, 0, 1, 1, 2][c.below(6)];
+    let sb_line = if c.bool() { 0 } else { 1 + c.below(SHEBANGS.len() - 1) as u8 };
     let fin = c.below(9);
     let inject = c.below(12);
     let mut cfg = Cfg::default();
@@ -106,13 +125,18 @@ fn gen_case(bytes: &[u8]) -> Case {
     if c.bool() {
         body.push('\n');
     }
-    Case { body, final_display: disp.map(|s| s.to_string()), args, dashdash_first, static_error, skip }
+    Case { body, final_display: disp.map(|s| s.to_string()), args, dashdash_first, static_error, skip, lead, sb_line }
 }
 
-fn cli(path_or_cmd: &[String], args: &[String], dashdash_first: bool) -> Vec<String> {
+fn cli(path_or_cmd: &[String], args: &[String], dashdash_first: bool, lead: u8) -> Vec<String> {
     // dash-prefixed arguments must come after `--`
     let needs = args.iter().any(|a| a.starts_with('-'));
     let mut v = Vec::new();
+    match lead {
+        1 => v.push("-s".to_string()),
+        2 => v.push("--skip-pcap".to_string()),
+        _ => {}
+    }
     if needs && dashdash_first && path_or_cmd.len() == 1 {
         v.push("--".to_string());
         v.extend_from_slice(path_or_cmd);
@@ -156,13 +180,14 @@ fn shift_lines(s: &str) -> String {
 fn check(ctx: &mut Ctx, k: &Case, strict_repl: bool) -> Vec<Violation> {
     let mut out = Vec::new();
     let path = e2e::script_file("c24.p2", &k.body);
-    let shebang_path = e2e::script_file("c24-shebang.p2", &format!("#!{}\n{}", e2e::bin_path(), k.body));
-    let case = json!({"body": k.body, "args": k.args, "dashdash_first": k.dashdash_first, "final_display": k.final_display, "static_error": k.static_error});
+    let sb_text = if k.sb_line == 0 { e2e::bin_path() } else { SHEBANGS[(k.sb_line as usize).min(SHEBANGS.len() - 1)].to_string() };
+    let shebang_path = e2e::script_file("c24-shebang.p2", &format!("#!{}\n{}", sb_text, k.body));
+    let case = json!({"body": k.body, "args": k.args, "dashdash_first": k.dashdash_first, "final_display": k.final_display, "static_error": k.static_error, "lead": k.lead, "sb_line": k.sb_line});
     guard("modes", "program", &k.body);
     let fail = |sig: &str, detail: String| Violation::new("modes", sig.to_string(), detail, case.clone());
-    let rf = e2e::run(Opts::new(cli(&[path.clone()], &k.args, k.dashdash_first)));
-    let rc = e2e::run(Opts::new(cli(&["-c".to_string(), k.body.clone()], &k.args, false)));
-    let rs = e2e::run(Opts::new(cli(&[shebang_path.clone()], &k.args, k.dashdash_first)));
+    let rf = e2e::run(Opts::new(cli(&[path.clone()], &k.args, k.dashdash_first, k.lead)));
+    let rc = e2e::run(Opts::new(cli(&["-c".to_string(), k.body.clone()], &k.args, false, k.lead)));
+    let rs = e2e::run(Opts::new(cli(&[shebang_path.clone()], &k.args, k.dashdash_first, k.lead)));
     for (name, r) in [("file", &rf), ("-c", &rc), ("shebang", &rs)] {
         if let Some(e) = &r.spawn_error {
             ctx.infra(format!("spawn failed: {}", e));
@@ -255,7 +280,7 @@ fn check(ctx: &mut Ctx, k: &Case, strict_repl: bool) -> Vec<Violation> {
         use std::os::unix::fs::PermissionsExt;
         let _ = std::fs::set_permissions(&shebang_path, std::fs::Permissions::from_mode(0o755));
         let needs = k.args.iter().any(|a| a.starts_with('-'));
-        if !needs {
+        if !needs && k.sb_line == 0 {
             let mut cmd = std::process::Command::new(&shebang_path);
             cmd.args(&k.args).env("RUST_BACKTRACE", "0").stdin(std::process::Stdio::null());
             match cmd.output() {
@@ -273,7 +298,7 @@ fn check(ctx: &mut Ctx, k: &Case, strict_repl: bool) -> Vec<Violation> {
     }
     // ---- REPL: argv is empty
     if strict_repl {
-        let r = e2e::run(Opts::new(cli(&[], &[], false)).env("P2SH_VERIF_REPL", "1").stdin(Stdin::Bytes(b"puts(len(argv))\nquit\n".to_vec())));
+        let r = e2e::run(Opts::new(cli(&[], &[], false, 0)).env("P2SH_VERIF_REPL", "1").stdin(Stdin::Bytes(b"puts(len(argv))\nquit\n".to_vec())));
         let t = r.out_text();
         ctx.class("repl-argv");
         if !t.contains("\u{1e}0\n") && !t.contains("\n0\n") {
@@ -292,6 +317,12 @@ fn one(ctx: &mut Ctx, bytes: &[u8]) -> Vec<Violation> {
     let nontrivial = !k.args.is_empty() || k.final_display.as_deref().map(|d| !d.is_empty()).unwrap_or(false) || k.static_error;
     ctx.case(hash_str(&k.body) ^ hash_str(&k.args.join("\u{1}")), nontrivial);
     ctx.class("triple");
+    if k.lead > 0 {
+        ctx.class("option:skip-pcap");
+    }
+    if k.sb_line > 0 {
+        ctx.class("shebang:other-text");
+    }
     if !k.args.is_empty() {
         ctx.class("argv:nonempty");
     }
@@ -320,6 +351,8 @@ pub fn replay(_section: &str, case: &Value, ctx: &mut Ctx) {
         dashdash_first: case["dashdash_first"].as_bool().unwrap_or(false),
         static_error: case["static_error"].as_bool().unwrap_or(false),
         skip: false,
+        lead: case["lead"].as_u64().unwrap_or(0) as u8,
+        sb_line: case["sb_line"].as_u64().unwrap_or(0) as u8,
     };
     for v in check(ctx, &k, true) {
         ctx.report(v);
